@@ -147,7 +147,8 @@ func InitState(preParse RawConfig, worldState common.WorldState) (sta *State, er
 		return
 	} else {
 		var manager usermanager.UserManager
-		if len(preParse.AdminUID) == 0 || preParse.DatabasePath == "" {
+		// an AdminUID that isn't a valid (16-byte) UID counts as not set
+		if len(preParse.AdminUID) != 16 || preParse.DatabasePath == "" {
 			manager = &usermanager.Voidmanager{}
 		} else {
 			manager, err = usermanager.MakeLocalManager(preParse.DatabasePath, worldState)
@@ -184,7 +185,9 @@ func InitState(preParse RawConfig, worldState common.WorldState) (sta *State, er
 	copy(pv[:], preParse.PrivateKey)
 	sta.StaticPv = &pv
 
-	sta.AdminUID = preParse.AdminUID
+	if len(preParse.AdminUID) == 16 {
+		sta.AdminUID = preParse.AdminUID
+	}
 
 	var arrUID [16]byte
 	for _, UID := range preParse.BypassUID {
